@@ -36,7 +36,7 @@ def bounds(tier):
 
 
 def OBLIGATIONS(tier):
-    return ['C13.sat', 'C13.unsat', 'C13.suffix', 'C13.absent', 'C13.exc', 'C13.ondemand']
+    return ['C13.sat', 'C13.unsat', 'C13.suffix', 'C13.absent', 'C13.exc', 'C13.ondemand', 'C13.seg']
 
 
 def _expected(shape, a, b, s, L):
@@ -257,8 +257,87 @@ def h_ondemand(sx, shape):
                          detail={'status': status})
 
 
+SEG_CASES = {
+    # case -> (media, extra query args; {n} = the requested segment number)
+    'video': ('bbb_v7', {}),
+    'video+vcorrupt': ('bbb_v7', {'vcorrupt': '{n}'}),
+    'audio': ('bbb_a1', {}),
+    'video+events': ('bbb_v7', {'events': 'ping', 'ping__inband': '1', 'ping__interval': '200'}),
+}
+
+
+def _seg_setup(case):
+    from . import c03_rewrite as c03
+    media, args = SEG_CASES[case]
+    now, n = c03._instant(media, '1h')
+    args = {k: v.format(n=n) for k, v in args.items()}
+    k = c03._mod_segment_for(media, media, now, n, args)
+    stored = c03._stored_segment(media, k)
+    return c03, media, args, now, n, k, stored
+
+
+def h_segment(sx, case, shape):
+    """the real generate_media_segment, once without and once with a Range header: the ranged
+    answer is the slice [first, last] of the full body and Content-Range names the full length"""
+    from pysx.core import sx_and, sx_implies, ctx
+    from . import media_kernel as mk
+    c03, media, args, now, n, k, stored = _seg_setup(case)
+    kind = shape.split('.')[0]
+    a = sx.int('a', 0, None) if 'a' in kind else None
+    b = sx.int('b', 0, None) if 'b' in kind else None
+    s = sx.int('s', 0, None) if 's' in kind else None
+    header = SHAPES[shape].format(a=a, b=b, s=s)
+    mf = c03.OneSegmentMedia(media, k, stored)
+    try:
+        full = mk.run_segment_symbolic(media, media, now, c03._options(args, now, media), n, None, media=mf)
+        ctx().env['body_slices'] = True
+        part = mk.run_segment_symbolic(media, media, now, c03._options(args, now, media), n, None, media=mf,
+                                       headers={'range': header})
+    except Exception as e:
+        sx.fail('C13.exc', detail={'raised': type(e).__name__, 'msg': str(e)[:160]})
+        return
+    finally:
+        ctx().env['body_slices'] = False
+    sx.prove(True, 'C13.exc')
+    body = full[0]
+    L = len(body)
+    sx.note('L', L)
+    if not isinstance(part, tuple):
+        # 400 'Invalid HTTP RANGE'
+        for cond, exp in _expected(shape, a, b, s, L):
+            sx.prove(sx_implies(cond, exp[0] == 'invalid'), 'C13.seg', detail={'response': str(part)[:60]})
+        return
+    data, status, headers = part
+    from pysx.iomodel import BodySlice, BodyBytes
+    cr = headers.get('Content-Range')
+    cr_shape, cr_nums = _parse_content_range(cr) if cr is not None else (None, [])
+    det = {'status': status, 'content_range': cr, 'L': L, 'body': data if isinstance(data, BodySlice) else f'{len(data)} bytes'}
+    for cond, exp in _expected(shape, a, b, s, L):
+        if exp[0] == '206':
+            _, f, l = exp
+            ok = status == 206 and isinstance(data, BodySlice) and cr_shape == 'bytes #-#/#'
+            if ok:
+                same_base = len(data.base) == L and bool(data.base == (body.value if isinstance(body, BodyBytes) else body))
+                ok = sx_and(same_base, data.start == f, data.stop == l + 1,
+                            cr_nums[0] == f, cr_nums[1] == l, cr_nums[2] == L)
+            sx.prove(sx_implies(cond, ok), 'C13.seg', detail=det)
+        elif exp[0] == '416':
+            ok = status == 416 and cr_shape == 'bytes */#'
+            if ok:
+                ok = cr_nums[0] == L
+            sx.prove(sx_implies(cond, ok), 'C13.seg', detail=det)
+        else:
+            sx.prove(sx_implies(cond, status in (400, 416)), 'C13.seg', detail=det)
+
+
 def instances(tier):
     out = []
+    for case in SEG_CASES:
+        for shape in ('a-b', 'a-', '-s'):
+            if tier == 'quick' and case in ('audio', 'video+events') and shape != 'a-b':
+                continue
+            out.append({'name': f'segment[{case},{shape}]', 'fn': h_segment, 'params': {'case': case, 'shape': shape},
+                        'weight': 30})
     for shape in SHAPES:
         out.append({'name': f'range[{shape}]', 'fn': h_range, 'params': {'shape': shape}})
     out.append({'name': 'absent', 'fn': h_absent, 'params': {}})
@@ -307,7 +386,39 @@ def _header(shape, inputs):
     return SHAPES[shape].format(a=inputs.get('a'), b=inputs.get('b'), s=inputs.get('s'))
 
 
+def _real_segment(params, inputs):
+    """clean interpreter: the real handler with and without the Range header"""
+    from . import media_kernel as mk
+    c03, media, args, now, n, k, stored = _seg_setup(params['case'])
+    header = _header(params['shape'], inputs)
+    mf = c03._RealOneSegment(media, k, bytes(stored))
+    full, st0, h0 = mk.run_segment_real(media, media, now, c03._options(args, now, media), n, None, media=mf)
+    mf = c03._RealOneSegment(media, k, bytes(stored))
+    body, st, h = mk.run_segment_real(media, media, now, c03._options(args, now, media), n, None, media=mf,
+                                      headers={'Range': header})
+    return {'header': header, 'L': len(full), 'status': st, 'content_range': h.get('Content-Range'), 'body': body, 'full': full}
+
+
+def _segment_verdict(params, inputs):
+    r = _real_segment(params, inputs)
+    L = r['L']
+    exp = _rfc(params['shape'], inputs.get('a'), inputs.get('b'), inputs.get('s'), L)
+    if exp[0] == '206':
+        f, l = exp[1], exp[2]
+        violated = not (r['status'] == 206 and r['body'] == r['full'][f:l + 1]
+                        and r['content_range'] == f'bytes {f}-{l}/{L}')
+    elif exp[0] == '416':
+        violated = not (r['status'] == 416 and r['content_range'] == f'bytes */{L}')
+    else:
+        violated = r['status'] not in (400, 416)
+    obs = {'header': r['header'], 'L': L, 'status': r['status'], 'content_range': r['content_range'],
+           'body_len': len(r['body']), 'rfc7233': list(exp)}
+    return violated, obs
+
+
 def observe(instance, params, inputs):
+    if instance.startswith('segment['):
+        return None
     if instance == 'absent':
         return _real_call(None, inputs['L'])
     r = _real_call(_header(params['shape'], inputs), inputs['L'])
@@ -316,6 +427,13 @@ def observe(instance, params, inputs):
 
 def replay(case):
     inputs, params = case['inputs'], case['params']
+    if case['instance'].startswith('segment['):
+        try:
+            violated, obs = _segment_verdict(params, inputs)
+        except Exception as e:
+            import traceback
+            return {'violated': True, 'observed': {'raised': type(e).__name__, 'tb': traceback.format_exc()[-400:]}}
+        return {'violated': violated, 'observed': obs}
     L = inputs['L']
     if case['instance'] == 'absent':
         r = _real_call(None, L)
